@@ -149,7 +149,7 @@ def run (st : St) (args : List Str) (impl : String) : St × String × String × 
       ({ st with db := [] }, "ok", "-", "corrupt")
     else if c = str "init" then
       -- Init seeds s1 once
-      if st.seeded then (st, "ok cbs=-", "?ok", "init-again")
+      if st.seeded then (st, "ok cbs=-", "ok cbs=-", "init-again")   -- C12: seeds exactly once
       else
         let seeds : List (Bytes × Val) := [(str "s1", ⟨str "seed", str "g"⟩)]
         let fresh := seeds.filter (fun e => (aget st.vals e.1).isNone)
